@@ -72,7 +72,7 @@ def generate(seed, tier, cfg):
         else:
             kind = f.choice(("F1", "F2", "F2", "F3", "F4", "F5", "F6"))
         err = {"F1": 28, "F2": f.choice((28, 5)), "F3": 28, "F4": 0, "F5": f.choice((2, 13)), "F6": 5, "F9": f.choice((0, 404, -1))}[kind]
-        faults.append({"kind": kind, "path": "*", "at": f.choice((0, 0, 1, 2)) if kind in ("F2", "F4", "F6") else 0, "errno": err})
+        faults.append({"kind": kind, "path": "*", "at": f.choice((0, 0, 1, 2)) if kind in ("F2", "F4", "F6") else 0, "errno": err, "frac": (round(f.random(), 3) if kind in ("F2", "F4", "F6") and f.random() < 0.5 else None)})
     knobs = _knobs(k, rich, ext, route)
     knobs["mid"] = mid
     if cfg == "kern-in" and knobs["style"]["same_part"] and len(asc["parts"]) > 1:
@@ -184,7 +184,7 @@ def execute(case, keep_log=False):
         res.probe("upper_case_extension")
     fs = SimFS(chunk=kn["chunk"])
     path = "/simfs/piece" + kn["ext"]
-    faults = [Fault(f["kind"], f["path"], f["at"], f["errno"]) for f in case["faults"]]
+    faults = [Fault(f["kind"], f["path"], f["at"], f["errno"], frac=f.get("frac")) for f in case["faults"]]
     nontrivial = shape["staves"] >= 2 or shape["tuplets"] or shape["ties"]
     with fs:
         g0 = G.fingerprint()
@@ -237,6 +237,7 @@ def run_in(res, fs, asc, kn, fmt, path, faults, shape):
         if shape["tuplets"]:
             res.probe("mei_tuplets")
     fs.put(path, data)
+    fs.expect_transfer(len(data))
     res.log.add("peer", "encode", {"format": fmt, "bytes": len(data), "digest": FP.digest(data)[:16]})
     fs.faults = faults
     fired_before = dict(fs.fired)
@@ -462,6 +463,7 @@ def _run_rt(res, fs, asc, kn, fmt, path, faults, shape, score):
             q = int(part.quarter_duration_map(n.start.t))
             want.append((F(n.start.t, q), F(n.duration_tied, q), n.midi_pitch, n.staff))
     want.sort()
+    fs.expect_transfer(4000)
     fs.faults = faults
     fired_before = dict(fs.fired)
     try:
